@@ -665,7 +665,15 @@ func (e *engine) doStep(st step) {
 			if got, want := w.pos("R"), w.pos(p); got != want {
 				e.fail("C13.holder-starts-at-lock-position", "holder-behind-primary-after-acquire", false, map[string]any{"holder_position": got.String(), "primary_position": want.String()})
 			}
-			e.curLock, e.first = w.n["R"].Store.DB(w.db).RemoteHaltLock(), false
+			rl := w.n["R"].Store.DB(w.db).RemoteHaltLock()
+			e.res.Evals++
+			if rl == nil {
+				// the catch-up file of a lagging holder must not cost it the lock it was just granted
+				e.fail("C13.holder-starts-at-lock-position", "lock-lost-to-catch-up-file", false, map[string]any{"holder_position": w.pos("R").String()})
+			} else if got := w.pos("R"); got != rl.Pos {
+				e.fail("C13.holder-starts-at-lock-position", "holder-not-at-lock-position-after-acquire", false, map[string]any{"lock": rl, "holder_position": got.String()})
+			}
+			e.curLock, e.first = rl, rl != nil
 		default:
 			e.cmap[mpos{st.O.T, st.O.C}] = r.After
 			obs = "other: " + err.Error()
@@ -987,7 +995,7 @@ func (e *engine) doStep(st step) {
 			case "unhalt":
 				status, _ = w.deleteHalt(m.to, w.ids["R"], m.id)
 			case "tx":
-				status, _ = w.postTx(m.to, w.ids["R"], m.id, m.body)
+				status, _ = w.postTxAs("R", m.to, w.ids["R"], m.id, m.body)
 			}
 		})
 		if e.callTrouble("duplicate request", pn, to) {
